@@ -29,7 +29,7 @@ META = {
     "ready": True,
     "level": "model_checking",
     "technique": "TLA+ table of relocation range checks (psABI) checked by TLC for tightness; every enumerated (type, boundary value) replayed end-to-end through real links of wild, GNU ld and ld.lld (three-way vote) and in-process into the real relocation table/write_to_buffer",
-    "level_text": "RelocRange.tla gives, for 10 x86-64 and 31 AArch64 static relocation types, the psABI range check and the field content; TLC checks on ~1000 (type, boundary value) cases that the range is exactly the set of values the field holds without loss and exports each case with the predicted accept/reject and field bytes; every case is linked for real by wild and by GNU ld + ld.lld (x86-64) or ld.lld (AArch64) and wild's exit status and written bytes are compared under the three-way vote; the same cases plus 10^3-10^4 seeded random values per type are replayed into RelocationKindInfo::write_to_buffer.",
+    "level_text": "RelocRange.tla gives, for 10 x86-64 and 30 AArch64 static relocation types, the psABI range check and the field content; TLC checks on ~1000 (type, boundary value) cases that the range is exactly the set of values the field holds without loss and exports each case with the predicted accept/reject and field bytes; every case (quick: every x86-64 case and every second AArch64 case) is linked for real by wild and by GNU ld + ld.lld (x86-64) or ld.lld (AArch64) and wild's exit status and written bytes are compared under the three-way vote; the same cases plus 10^3-10^4 seeded random values per type are replayed into RelocationKindInfo::write_to_buffer.",
     "level_note": "GOT/TLS-relative types and RISC-V/LoongArch are not in the table; AArch64 has a single reference linker (ld.lld 14), so rows where lld and the psABI transcription differ are reported as no-verdict; values are boundary classes + random, not dense; misaligned values of scaled types are outside the check.",
     "engine": "tlc",
 }
@@ -261,8 +261,12 @@ def run(ctx):
     with scratch("c12") as d:
         def job(i):
             return i, run_case(d, i, recs[i], wild)
+        # quick tier: every x86-64 case (two reference linkers) and every second AArch64 case (the
+        # half is chosen by the seed; thorough links all of them)
+        todo = [i for i in range(len(recs))
+                if not ctx.quick or recs[i]["arch"] == "x86_64" or (i + ctx.seed) % 2 == 0]
         with ThreadPoolExecutor(max_workers=8) as ex:
-            results = list(ex.map(job, range(len(recs))))
+            results = list(ex.map(job, todo))
         spec_bugs = []
         lld_disagree = []
         for i, res in results:
@@ -329,7 +333,8 @@ def run(ctx):
                                lambda key=key, meta=meta, files=files: save_replay(
                                    PROP, key.replace(":", "_"), files=files, meta=meta))
         pending.clear()
-    cov["e2e_links"] = sum(3 if r["arch"] == "x86_64" else 2 for r in recs)
+    cov["e2e_links"] = sum(3 if recs[i]["arch"] == "x86_64" else 2 for i in todo)
+    cov["e2e_cases"] = len(todo)
     cov["e2e_votes"] = {k: sum(1 for x in e2e if x["vote"] == k) for k in ("accept", "reject", "split")}
     cov["aarch64_spec_vs_lld_no_verdict"] = lld_disagree[:12]
     cov["aarch64_spec_vs_lld_no_verdict_count"] = len(lld_disagree)
